@@ -86,6 +86,22 @@ func (a *AliasMangler) Mangle(sf reflect.StructField) ([]reflect.StructField, er
 		}
 	}
 
+	// The same goes for every other tag that names the field for some
+	// consumer (a hand-written json, yaml or toml tag next to the dials
+	// tag): inherited by the copy, both fields would answer to one key in
+	// that decoder. Without it the decoder's key is derived from the
+	// aliased dials tag like for any other field.
+	managed := map[string]bool{common.DialsHelpTextTag: true}
+	for _, tag := range a.tags {
+		managed[tag] = true
+		managed[tag+dialsAliasTagSuffix] = true
+	}
+	for _, t := range tags.Tags() {
+		if !managed[t.Key] && t.Name != "" && t.Name != "-" {
+			tags.Delete(t.Key)
+		}
+	}
+
 	// keep track of the aliases we actually set so we can update the dialsdesc
 	setAliases := []string{}
 
